@@ -64,9 +64,15 @@ theorem shiftElems_flat (s : Nat) (es : List Elem) :
   | nil => rfl
   | cons e es ih => simp only [shiftElems, List.map_cons, List.flatMap_cons] at *; rw [ih]
 
+theorem leadPad_flat (tail : Bytes) : (leadPad tail).flatMap (·.buf) = tail := by
+  unfold leadPad
+  by_cases h : tail = []
+  · simp [h]
+  · simp [h]
+
 theorem payload_biosAfter (r : Region) (blen : Nat) (elems : List Elem) (tail : Bytes) :
     payload { r with body := biosAfter blen elems tail } = tail ++ elems.flatMap (·.buf) := by
-  simp [payload, biosAfter, shiftElems_flat]
+  simp [payload, biosAfter, shiftElems_flat, leadPad_flat]
 
 set_option maxRecDepth 10000 in
 /-- **`tighten` preserves well-formedness**; the `chain` field of the result says that the
@@ -207,7 +213,7 @@ theorem wf_tighten (pol : Nat) (f f' : Flash) (w : WF f) (h : tighten pol f = .o
     · simp [hmb] at hb
     · simp only [biosAfter, Body.bios.injEq] at hb
       obtain ⟨rfl, rfl⟩ := hb
-      simp [shiftElems_flat, hbl]; omega
+      simp [shiftElems_flat, leadPad_flat, hbl]; omega
   · intro r hr' fpt' free' hb
     rcases hmemcases r hr' with h | rfl | rfl
     · exact w.me r (hraw r h).1 fpt' free' hb
@@ -256,9 +262,13 @@ theorem asmVolumes_shift (pol s : Nat) (es : List Elem) : asmVolumes pol (shiftE
     | false => simpa using ih pol
     | true =>
       simp only [if_true]
-      cases setPolarity pol e.pol with
-      | error _ => rfl
-      | ok p => exact ih p
+      cases e.files with
+      | true => rfl
+      | false =>
+        simp only [Bool.false_eq_true, if_false]
+        cases setPolarity pol e.pol with
+        | error _ => rfl
+        | ok p => exact ih p
 
 theorem firstFVPol_shift (s : Nat) (es : List Elem) : firstFVPol (shiftElems s es) = firstFVPol es := by
   induction es with
@@ -270,9 +280,12 @@ theorem firstFVPol_shift (s : Nat) (es : List Elem) : firstFVPol (shiftElems s e
     | true => rfl
 
 theorem biosPol_after (pol s : Nat) (tail : Bytes) (es : List Elem) :
-    biosPol pol (⟨false, 0, tail, 0⟩ :: shiftElems s es) = biosPol pol es := by
-  unfold biosPol
-  simp only [asmVolumes, firstFVPol, Bool.false_eq_true, if_false, asmVolumes_shift, firstFVPol_shift]
+    biosPol pol (leadPad tail ++ shiftElems s es) = biosPol pol es := by
+  unfold biosPol leadPad
+  by_cases h : tail = []
+  · simp only [h, if_true, List.nil_append, asmVolumes_shift, firstFVPol_shift]
+  · simp only [h, if_false, List.singleton_append, asmVolumes, firstFVPol, Bool.false_eq_true, asmVolumes_shift,
+      firstFVPol_shift]
 
 /-- the erase-polarity bookkeeping of Assemble is unaffected -/
 theorem polFold_tighten (pol p0 : Nat) (f f' : Flash) (w : WF f) (h : tighten pol f = .ok f') :
@@ -353,7 +366,7 @@ theorem tighten_twice_ok (pol : Nat) (f f' : Flash) (w : WF f) (h : tighten pol 
     { mer with buf := mer.buf.take ((nb - r1.base) * 4096) }
     { br with body := biosAfter blen elems (mer.buf.drop ((nb - r1.base) * 4096)) }
     fpt free (blen + (mer.buf.drop ((nb - r1.base) * 4096)).length)
-    (⟨false, 0, mer.buf.drop ((nb - r1.base) * 4096), 0⟩ :: shiftElems (mer.buf.drop ((nb - r1.base) * 4096)).length elems)
+    (leadPad (mer.buf.drop ((nb - r1.base) * 4096)) ++ shiftElems (mer.buf.drop ((nb - r1.base) * 4096)).length elems)
     { r1 with limit := nb - 1 } { r0 with base := nb } ?_ ?_ ?_ ?_ ?_ ?_ ?_ ?_ ?_ ?_ ?_⟩
   · rw [hf']
     exact lastIdx_at _ pre _ _ (by simp [hmb, Body.isME]) (by
